@@ -361,6 +361,16 @@ def build_scene(sc, o, det, scale=1.0):
             th_, ph_ = m["dir"]
             u = np.array([math.sin(th_) * math.cos(ph_), math.sin(th_) * math.sin(ph_), math.cos(th_)])
             d = m["dist"] * (rs[0] + r)
+            if m.get("kd") is not None:
+                # centre distance from the first member at a zero of a Riccati-Bessel function of k*d (multiples of
+                # pi, roots of tan x = x): the first such value that keeps the two spheres apart
+                zs = sorted([j * math.pi for j in range(1, 40)] + [4.493409457909064, 7.725251836937707, 10.904121659428899, 14.066193912831473,
+                                                                    17.220755271930768, 20.371302959287563])
+                start = int(m["kd"]) % len(zs)
+                for z_ in zs[start:] + zs:
+                    if z_ / k >= 1.02 * (rs[0] + r):
+                        d = z_ / k
+                        break
             for _ in range(60):
                 p = c0 + u * d
                 if all(np.linalg.norm(p - q) >= 1.01 * (r + rq) for q, rq in zip(cs, rs)):
